@@ -216,7 +216,8 @@ class UnitResult:
 
 class Unit:
     def __init__(self, name, insts, includes=('rlbox.hpp', 'vsbx.hpp'), defines=('RLBOX_SINGLE_THREADED_INVOCATIONS',),
-                 extra_cpp=''):
+                 extra_cpp='', pre_cpp=''):
+        self.pre_cpp = pre_cpp        # C++ text before the rlbox headers are included (e.g. hook declarations)
         self.name = name
         self.insts = insts
         self.includes = includes
@@ -232,6 +233,7 @@ class Unit:
         s = ''
         for d in self.defines:
             s += '#define %s\n' % d.replace('=', ' ', 1)
+        s += self.pre_cpp + '\n'
         for i in self.includes:
             s += '#include "%s"\n' % i
         s += self.extra_cpp + '\n'
@@ -440,6 +442,7 @@ class Unit:
         s = ''
         for d in self.defines:
             s += '#define %s\n' % d.replace('=', ' ', 1)
+        s += self.pre_cpp + '\n'
         for i in self.includes:
             s += '#include "%s"\n' % i
         s += self.extra_cpp + '\n#include <cstdio>\n#include <array>\n#include <utility>\n#include <type_traits>\nusing namespace rlbox; using namespace rlbox::detail;\nint main(){\n'
